@@ -36,7 +36,7 @@ mod verif_penalty {
     }
 
     #[kani::proof]
-    #[kani::unwind(4)]
+    #[kani::unwind(8)]
     fn penalty_continue_fits_or_dominates() {
         let len: u32 = kani::any();
         let limit: u32 = kani::any();
@@ -54,7 +54,7 @@ mod verif_penalty {
     }
 
     #[kani::proof]
-    #[kani::unwind(4)]
+    #[kani::unwind(8)]
     fn penalty_monotone() {
         let len: u32 = kani::any();
         let limit: u32 = kani::any();
@@ -71,7 +71,7 @@ mod verif_penalty {
     }
 
     #[kani::proof]
-    #[kani::unwind(4)]
+    #[kani::unwind(8)]
     fn penalty_break_independent_of_limit() {
         let l1: u32 = kani::any();
         let l2: u32 = kani::any();
